@@ -35,6 +35,7 @@ int                memio_ro_write_attempt = 0;
 struct memio_wlog  memio_log[MEMIO_LOGN];
 long               memio_nlog = 0;
 int                memio_overflow = 0;
+int                memio_sparse = 0; /* allow writes beyond MEMIO_DISK_SZ (not stored; read as zeros) */
 long               memio_short_amount = 0; /* bytes actually transferred by a failing fread/fwrite */
 
 static int
@@ -199,7 +200,7 @@ FN(fread)(void *ptr, size_t size, size_t n, FILE *fp)
         got = (size_t)sh;
     }
     for (i = 0; i < got; i++)
-        dst[i] = f->data[s->pos + (long)i];
+        dst[i] = (s->pos + (long)i < MEMIO_DISK_SZ) ? f->data[s->pos + (long)i] : 0;
     s->pos += (long)got;
     if (bad && got == want)
         return 0;
@@ -230,10 +231,10 @@ FN(fwrite)(const void *ptr, size_t size, size_t n, FILE *fp)
             sh = put ? (long)put - 1 : 0;
         put = (size_t)sh;
     }
-    if (s->pos + (long)put > MEMIO_DISK_SZ) {
+    if (s->pos + (long)put > MEMIO_DISK_SZ && !memio_sparse) {
         /* model limit exceeded: harness sizing error, never a library verdict */
         memio_overflow = 1;
-#ifdef __CPROVER
+#ifdef __CPROVER__
         __CPROVER_assert(0, "MEMIO: model disk too small (harness sizing error)");
         __CPROVER_assume(0);
 #endif
@@ -242,7 +243,7 @@ FN(fwrite)(const void *ptr, size_t size, size_t n, FILE *fp)
     /* zero-fill a gap between EOF and the write position */
     if (put > 0) {
         long g;
-        for (g = f->size; g < s->pos; g++)
+        for (g = f->size; g < s->pos && g < MEMIO_DISK_SZ; g++)
             f->data[g] = 0;
     }
     k = memio_nwrites++;
@@ -254,7 +255,8 @@ FN(fwrite)(const void *ptr, size_t size, size_t n, FILE *fp)
     }
     (void)k;
     for (i = 0; i < put; i++)
-        f->data[s->pos + (long)i] = src[i];
+        if (s->pos + (long)i < MEMIO_DISK_SZ) /* sparse tail (memio_sparse): bytes beyond the model disk are not stored */
+            f->data[s->pos + (long)i] = src[i];
     s->pos += (long)put;
     if (put > 0 && s->pos > f->size)
         f->size = s->pos;
